@@ -32,6 +32,7 @@ structure Struct (fs : FSk) (ss : SSk) (cur : Nat) : Prop where
   two : 2 ≤ ss.length
   cur : cur < fs.length
   fwd : ∀ (i : Nat) (x : Nat × List Parent), fs[i]? = some x → ∀ q, Parent.flow q ∈ x.2 → q < i
+  hasParent : ∀ (i : Nat) (s : ScopeKind × Option Nat × Nat), ss[i]? = some s → s.1 ≠ .builtin → s.2.1 ≠ none
 
 /-- flows are only added, and keep their scope -/
 def MonoF (fs fs' : FSk) : Prop :=
@@ -82,7 +83,7 @@ theorem monoF_modify (fs : FSk) (i : Nat) (g : Nat × List Parent → Nat × Lis
   · exact ⟨y, hy, rfl⟩
 
 theorem Struct.setCur {fs ss c} (h : Struct fs ss c) {v : Nat} (hv : v < fs.length) : Struct fs ss v :=
-  ⟨h.parents, h.fscope, h.final, h.kindMod, h.parent, h.two, hv, h.fwd⟩
+  ⟨h.parents, h.fscope, h.final, h.kindMod, h.parent, h.two, hv, h.fwd, h.hasParent⟩
 
 theorem Struct.curScope_lt {fs ss c} (h : Struct fs ss c) : scopeOf fs c < ss.length := by
   obtain ⟨x, hx, e⟩ := fin_of_lt h.cur
@@ -92,7 +93,7 @@ theorem Struct.curScope_lt {fs ss c} (h : Struct fs ss c) : scopeOf fs c < ss.le
 theorem Struct.newFlow {fs ss c} (h : Struct fs ss c) {S : Nat} {ps : List Parent} (hS : S < ss.length)
     (hps : ∀ p ∈ ps, PIn fs S p) : Struct (fs ++ [(S, ps)]) ss c := by
   have hm := monoF_append fs (S, ps)
-  refine ⟨?_, ?_, ?_, h.kindMod, h.parent, h.two, by simp; have := h.cur; omega, ?_⟩
+  refine ⟨?_, ?_, ?_, h.kindMod, h.parent, h.two, by simp; have := h.cur; omega, ?_, h.hasParent⟩
   rotate_left 3
   · intro i x hx q hq
     rcases getElem?_append_singleton hx with hx | ⟨hi, rfl⟩
@@ -117,7 +118,7 @@ theorem fin_newFlow (fs : FSk) (S : Nat) (ps : List Parent) : FIn (fs ++ [(S, ps
 theorem Struct.addLoop {fs ss c} (h : Struct fs ss c) {hd t : Nat} (ht : FIn fs t (scopeOf fs hd)) :
     Struct (modifyAt fs hd (fun x => (x.1, x.2 ++ [Parent.loop hd t]))) ss c := by
   have hm := monoF_modify fs hd (fun x => (x.1, x.2 ++ [Parent.loop hd t])) (fun _ => rfl)
-  refine ⟨?_, ?_, ?_, h.kindMod, h.parent, h.two, by rw [length_modifyAt]; exact h.cur, ?_⟩
+  refine ⟨?_, ?_, ?_, h.kindMod, h.parent, h.two, by rw [length_modifyAt]; exact h.cur, ?_, h.hasParent⟩
   rotate_left 3
   · intro i x hx q hq
     rw [getElem?_modifyAt] at hx
@@ -156,7 +157,15 @@ theorem Struct.addLoop {fs ss c} (h : Struct fs ss c) {hd t : Nat} (ht : FIn fs 
 /-- `self.flow.scope.flow = self.flow` -/
 theorem Struct.setFinal {fs ss c} (h : Struct fs ss c) :
     Struct fs (modifyAt ss (scopeOf fs c) (fun s => (s.1, s.2.1, c))) c := by
-  refine ⟨h.parents, ?_, ?_, ?_, ?_, by rw [length_modifyAt]; exact h.two, h.cur, h.fwd⟩
+  refine ⟨h.parents, ?_, ?_, ?_, ?_, by rw [length_modifyAt]; exact h.two, h.cur, h.fwd, ?_⟩
+  rotate_left 4
+  · intro i s hs hk
+    rw [getElem?_modifyAt] at hs
+    split at hs
+    · simp only [Option.map_eq_some_iff] at hs
+      obtain ⟨y, hy, rfl⟩ := hs
+      exact h.hasParent i y hy hk
+    · exact h.hasParent i s hs hk
   · intro i x hx; rw [length_modifyAt]; exact h.fscope i x hx
   · intro i s hs hk
     rw [getElem?_modifyAt] at hs
@@ -186,12 +195,16 @@ theorem Struct.setFinal {fs ss c} (h : Struct fs ss c) :
 theorem Struct.newScope {fs ss c} (h : Struct fs ss c) {k : ScopeKind} (hk : k = .func ∨ k = .cls) :
     Struct (fs ++ [(ss.length, [])]) (ss ++ [(k, some (scopeOf fs c), fs.length)]) c := by
   have hm := monoF_append fs (ss.length, [])
-  refine ⟨?_, ?_, ?_, ?_, ?_, by simp; have := h.two; omega, by simp; have := h.cur; omega, ?_⟩
+  refine ⟨?_, ?_, ?_, ?_, ?_, by simp; have := h.two; omega, by simp; have := h.cur; omega, ?_, ?_⟩
   rotate_left 5
   · intro i x hx q hq
     rcases getElem?_append_singleton hx with hx | ⟨_, rfl⟩
     · exact h.fwd i x hx q hq
     · cases hq
+  · intro i s hs hkb
+    rcases getElem?_append_singleton hs with hs | ⟨_, rfl⟩
+    · exact h.hasParent i s hs hkb
+    · simp
   · intro i x hx p hp
     rcases getElem?_append_singleton hx with hx | ⟨_, rfl⟩
     · exact PIn.mono hm (h.parents i x hx p hp)
@@ -222,12 +235,17 @@ theorem Struct.newScope {fs ss c} (h : Struct fs ss c) {k : ScopeKind} (hk : k =
 theorem Struct.scopesSame {fs ss ss' c} (h : Struct fs ss c) (hs : ss' = ss) : Struct fs ss' c := hs ▸ h
 
 theorem struct_init : Struct [(1, [])] [(.builtin, none, 0), (.module, some 0, 0)] 0 := by
-  refine ⟨?_, ?_, ?_, ?_, ?_, by simp, by simp, ?_⟩
+  refine ⟨?_, ?_, ?_, ?_, ?_, by simp, by simp, ?_, ?_⟩
   rotate_left 5
   · intro i x hx q hq
     match i with
     | 0 => simp at hx; subst hx; cases hq
     | i + 1 => simp at hx
+  · intro i s hs hk
+    match i with
+    | 0 => simp at hs; subst hs; exact absurd rfl hk
+    | 1 => simp at hs; subst hs; simp
+    | i + 2 => simp at hs
   · intro i x hx p hp
     match i with
     | 0 => simp at hx; subst hx; cases hp
